@@ -13,6 +13,10 @@ pub enum Kind {
     UserNoPerms,
     NoSelection,
     Admin,
+    /// a database-token session on a node that is a secondary and knows its primary: what the
+    /// node forwards to the primary is part of what the session can cause
+    DbTokenOnSecondary,
+    UserNoPermsOnSecondary,
 }
 
 pub struct Side {
@@ -21,6 +25,8 @@ pub struct Side {
     sess: Session,
     secure0: BTreeMap<String, (String, i32)>,
     touch: usize,
+    /// what the node sends to its primary (only when it runs as a secondary)
+    to_primary: Option<futures::channel::mpsc::Receiver<String>>,
 }
 
 pub struct W2 {
@@ -66,10 +72,10 @@ fn make_side(kind: Kind, second: bool) -> Side {
     }
     let mut sess = Session::new();
     match kind {
-        Kind::DbToken => {
+        Kind::DbToken | Kind::DbTokenOnSecondary => {
             sess.exec(&node, "use-db t tok");
         }
-        Kind::UserFull | Kind::UserNoPerms => {
+        Kind::UserFull | Kind::UserNoPerms | Kind::UserNoPermsOnSecondary => {
             let o = sess.exec(&node, "use-db t bob bt");
             assert_eq!(o.resp, "Ok");
         }
@@ -80,7 +86,14 @@ fn make_side(kind: Kind, second: bool) -> Side {
         }
     }
     let secure0 = secure_view(&node);
-    let mut s = Side { node, admin, sess, secure0, touch: 0 };
+    let mut to_primary = None;
+    if matches!(kind, Kind::DbTokenOnSecondary | Kind::UserNoPermsOnSecondary) {
+        let (tx, rx) = futures::channel::mpsc::channel::<String>(1000);
+        node.dbs.add_cluster_member(nundb::bo::ClusterMember { name: "primary:1".to_string(), role: nundb::bo::ClusterRole::Primary, sender: Some(tx) });
+        node.set_role(nundb::bo::ClusterRole::Secoundary);
+        to_primary = Some(rx);
+    }
+    let mut s = Side { node, admin, sess, secure0, touch: 0, to_primary };
     s.node.drain_queues();
     s
 }
@@ -162,6 +175,7 @@ impl SeqModel for C08 {
     fn step(&self, w: &mut W2, letter: usize) -> Vec<StepViolation> {
         let line = self.letters[letter].clone();
         let mut obs = vec![];
+        let mut forwarded: Vec<Vec<String>> = vec![];
         for (i, s) in [&mut w.a, &mut w.b].into_iter().enumerate() {
             s.node.ctx.install();
             let o = if line == ADMIN_TOUCH_SECRET {
@@ -180,6 +194,17 @@ impl SeqModel for C08 {
                 s.sess.exec(&s.node, &line)
             };
             s.node.drain_queues();
+            let mut f = vec![];
+            if let Some(rx) = s.to_primary.as_mut() {
+                while let Ok(Some(m)) = rx.try_next() {
+                    f.push(m);
+                }
+            }
+            // the administrator's own writes in the two pseudo letters are forwarded too: not the session's doing
+            if line == ADMIN_TOUCH_SECRET || line == ADMIN_TOUCH_PLAIN {
+                f.clear();
+            }
+            forwarded.push(f);
             obs.push(o);
         }
         if let Some(p) = &obs[0].panic {
@@ -187,6 +212,25 @@ impl SeqModel for C08 {
             return v("panic", format!("`{}` panicked: {}", line, p));
         }
         if self.kind != Kind::Admin {
+            // a write the node passes on to its primary is applied there under cluster
+            // authority: nothing that names a $$ key may leave on behalf of this session
+            for (n, f) in [("A", &forwarded[0]), ("B", &forwarded[1])] {
+                // the key a forwarded command names (not its value)
+                let key_of = |m: &str| -> Option<String> {
+                    let t: Vec<&str> = m.split(' ').collect();
+                    match t.first().copied() {
+                        Some("replicate") | Some("replicate-remove") | Some("replicate-increment") => t.get(2).map(|k| k.to_string()),
+                        Some("resolve") => t.get(3).map(|k| k.to_string()),
+                        _ => None,
+                    }
+                };
+                if let Some(m) = f.iter().find(|m| key_of(m).map(|k| k.starts_with("$$")).unwrap_or(false)) {
+                    return v("secure-key-write-forwarded-to-primary", format!("`{}` in world {}: the secondary forwarded {:?} to its primary", line, n, m));
+                }
+            }
+            if forwarded[0] != forwarded[1] {
+                return v("reply-depends-on-secure-keys", format!("`{}`: forwarded to the primary in world A {:?} / world B {:?}", line, forwarded[0], forwarded[1]));
+            }
             if obs[0] != obs[1] {
                 return v(
                     "reply-depends-on-secure-keys",
@@ -216,7 +260,7 @@ impl SeqModel for C08 {
 
 pub fn run(run: &mut Run) {
     let quick = run.quick();
-    let kinds = [Kind::DbToken, Kind::UserFull, Kind::UserNoPerms, Kind::NoSelection, Kind::Admin];
+    let kinds = [Kind::DbToken, Kind::UserFull, Kind::UserNoPerms, Kind::NoSelection, Kind::Admin, Kind::DbTokenOnSecondary, Kind::UserNoPermsOnSecondary];
     for kind in kinds {
         let m = C08::new(kind, if quick { 0 } else { 1 });
         let cfg = SeqConfig {
